@@ -730,7 +730,8 @@ func init() {
 
 // ---------- C11.R3 ----------
 
-func runRecursionRule(p *Prog, c *Ctx) {
+// recursiveSCCs: the strongly connected components (with a cycle) of the module-internal call graph.
+func (p *Prog) recursiveSCCs() [][]*ssa.Function {
 	// SCCs of the module-internal call graph (Tarjan)
 	idx := map[*ssa.Function]int{}
 	low := map[*ssa.Function]int{}
@@ -809,6 +810,11 @@ func runRecursionRule(p *Prog, c *Ctx) {
 		}
 	}
 	sort.Slice(sccs, func(i, j int) bool { return sccs[i][0].String() < sccs[j][0].String() })
+	return sccs
+}
+
+func runRecursionRule(p *Prog, c *Ctx) {
+	sccs := p.recursiveSCCs()
 
 	for _, comp := range sccs {
 		var names []string
